@@ -147,6 +147,9 @@ def run_verus(unit_names, canary=False, seed=None, strict=False, keep=None, extr
             if strict:
                 u['prelude'] = strict_rewrite(u.get('prelude', ''))
                 u['fns'] = json_strict(u['fns'])
+            dbg = os.environ.get('VERIF_DEBUG_PRELUDE')
+            if dbg and os.path.exists(dbg + '.' + us[0]['name']):
+                u['prelude'] = u.get('prelude', '') + open(dbg + '.' + us[0]['name']).read()
             p = os.path.join(crate, f)
             text = open(p).read()
             new, infos = annotate.annotate_file(text, u, canary=canary)
